@@ -58,6 +58,9 @@ func init() {
 }
 
 func runC05(p *chk.Prog, r *chk.Report) {
+	scratchRule(p, r, "speaker", "internal/bgp")
+	ka := r.Rule("KEYED-ACCUMULATOR", "B path", "in package speaker a fresh set / slice / map is stored under m[k] inside a loop only when the key is absent (comma-ok false, nil, or empty), for every map whose entries are accumulated into (notifyAdsChanged: prefix -> services, service -> peers)", 2)
+	keyedAccumulatorRule(ka, p, "speaker")
 	c05Build(p, r)
 	c05Publish(p, r)
 	c05Republish(p, r)
@@ -79,7 +82,9 @@ func c05Build(p *chk.Prog, r *chk.Report) {
 	for _, l := range ipLoops {
 		ipLoop = l
 	}
-	for _, l := range f.RangeLoops(func(e ast.Expr) bool { return f.MatchWith("P.BGPAdvertisements", e, chk.H("P", isParam(f, "pool"))) != nil }) {
+	for _, l := range f.RangeLoops(func(e ast.Expr) bool {
+		return f.MatchWith("P.BGPAdvertisements", e, chk.H("P", isParam(f, "pool"))) != nil
+	}) {
 		if ipLoop != nil && chk.InBody(ipLoop, l) {
 			adLoop = l
 		}
@@ -256,7 +261,9 @@ func c05Publish(p *chk.Prog, r *chk.Report) {
 		for _, rs := range af.RangeLoops(isParamIdx(af, 1)) {
 			a := rangeVal(af, rs)
 			m := g.GPat(true, "A.MatchesPeer(N)", chk.H("A", a), chk.H("N", isParamIdx(af, 0)))
-			apps := g.Find(func(n ast.Node) bool { return chk.InBody(rs, n) && af.IsAssignPat("R", "append(R, A)", chk.H("A", a))(n) })
+			apps := g.Find(func(n ast.Node) bool {
+				return chk.InBody(rs, n) && af.IsAssignPat("R", "append(R, A)", chk.H("A", a))(n)
+			})
 			if len(apps) == 1 {
 				ok = g.Dominated(apps[0], m) && !loopHasBreak(g, rs) &&
 					!loopSkipsWithout(g, rs, func(n ast.Node) bool { return n == apps[0].Top }, g.GPat(false, "A.MatchesPeer(N)", chk.H("A", a), chk.H("N", isParamIdx(af, 0))))
@@ -409,7 +416,7 @@ func c05Republish(p *chk.Prog, r *chk.Report) {
 		if flag != nil && doneB != nil {
 			w := (&chk.Walk{G: g, From: chk.Site{G: g, B: doneB, I: 0}, Inclusive: true, HitExit: true,
 				Stop: sp.ContainsPat("RECV.updateAds()"),
-				Cut: func(b *cfgBlock, k int) bool { return g.EdgeImplies(b, k, chk.GBool(false, sp.IsObj(flag))) }}).Run()
+				Cut:  func(b *cfgBlock, k int) bool { return g.EdgeImplies(b, k, chk.GBool(false, sp.IsObj(flag))) }}).Run()
 			x.Check("syncPeers:republish-before-any-return", posOf(w, sp), !w.Found, "", "after the peer loop a return is reachable with the republish flag set and updateAds not called (e.g. the error return for failed sessions placed first)")
 		}
 	}
